@@ -58,10 +58,22 @@ def line_set(fn):
             seen.add((f[len(root):], f"{code.co_name}@{src}->{dst}"))
         return _mon.DISABLE
 
+    def cb_return(code, offset, retval):
+        # discrete decisions that change data, not control flow (which triangle, which quintant, reflect or not):
+        # the first small-int / bool value each function returns is part of the signature
+        f = code.co_filename
+        if f.startswith(root) and (retval is True or retval is False or (type(retval) is int and -64 <= retval <= 64)):
+            key = (f[len(root):], code.co_name)
+            if key not in first_ret:
+                first_ret[key] = retval
+                seen.add((f[len(root):], f"{code.co_name} -> {retval!r}"))
+
+    first_ret = {}
     fn()          # warm-up: lazily filled caches must not show up as differences between inputs
     _mon.register_callback(_TOOL, _mon.events.LINE, cb)
     _mon.register_callback(_TOOL, _mon.events.BRANCH, cb_branch)
-    _mon.set_events(_TOOL, _mon.events.LINE | _mon.events.BRANCH)
+    _mon.register_callback(_TOOL, _mon.events.PY_RETURN, cb_return)
+    _mon.set_events(_TOOL, _mon.events.LINE | _mon.events.BRANCH | _mon.events.PY_RETURN)
     _mon.restart_events()
     try:
         fn()
@@ -69,6 +81,7 @@ def line_set(fn):
         _mon.set_events(_TOOL, 0)
         _mon.register_callback(_TOOL, _mon.events.LINE, None)
         _mon.register_callback(_TOOL, _mon.events.BRANCH, None)
+        _mon.register_callback(_TOOL, _mon.events.PY_RETURN, None)
     return frozenset(seen)
 
 
